@@ -56,6 +56,8 @@ def main(argv=None):
 
         targets = sorted(t for t, c in REGISTRY.items() if prop in c.props and not c.assumed)
         assumed_contracts = sorted(f"{t}: {c.assumed}" for t, c in REGISTRY.items() if prop in c.props and c.assumed)
+        if args.tier == "thorough":
+            os.environ.setdefault("PYVC_CROSS", "1")   # every z3 `unsat` is put to cvc5 as well
         z3_ms = 10000 if args.tier == "quick" else 40000
         budget = 300.0 if args.tier == "quick" else 1200.0
         jobs = [(args.repo, t, z3_ms, budget) for t in targets]
